@@ -136,6 +136,21 @@ macro_rules! routes_kind {
         let mut bad: Vec<&str> = Vec::new();
         if format!("{}", v) != s { bad.push("display") }
         if format!("{:?}", v) != format!("{:?}", s) { bad.push("debug") }
+        // formatter flags are honoured the way `str` honours them (widths around the length in
+        // characters and in bytes, precision, the three alignments, a fill character)
+        {
+            let nc = s.chars().count();
+            let o2: $O = v.to_owned();
+            for w in [nc + 1, s.len(), s.len() + 3, nc.saturating_sub(1)] {
+                if format!("{:>w$}", v, w = w) != format!("{:>w$}", s, w = w) { bad.push("display_width") }
+                if format!("{:*<w$}", v, w = w) != format!("{:*<w$}", s, w = w) { bad.push("display_fill") }
+                if format!("{:^w$}", o2, w = w) != format!("{:^w$}", s, w = w) { bad.push("owned_display_width") }
+                if format!("{:>w$}", o2, w = w) != format!("{:>w$}", s, w = w) { bad.push("owned_display_width") }
+            }
+            if format!("{:.3}", v) != format!("{:.3}", s) { bad.push("display_precision") }
+            if format!("{:.3}", o2) != format!("{:.3}", s) { bad.push("owned_display_precision") }
+            if format!("{:8.2}", o2) != format!("{:8.2}", s) { bad.push("owned_display_precision") }
+        }
         if v.as_str() != s { bad.push("as_str") }
         if v.as_bytes() != b { bad.push("as_bytes") }
         let r: &str = v.as_ref();
